@@ -295,7 +295,7 @@ CHECKS["C09"] = {
           "Correspondence: 35k member × receiver × argument × position cases under static and opaque typing, operation sequences, "
           "forall programs, under ASan/UBSan, compared with model and spec.",
   "note": "partial: the full statement is false on the pinned tree (C09.tuple.hashCollision, C09.tuple.hashZero, C09.mix.level, "
-          "C09.{put,insert,concat,set}.nullDeref recorded); value refinement of put/insert/concat and forall at statement level are "
+          "recorded; the four null-element dereferences of put/insert/concat/set@ were repaired: mix_null_stores_null, table_methods_no_hazard); value refinement of put/insert/concat and forall at statement level are "
           "checked by correspondence only.",
   "technique": "interactive theorem proving (Lean 4 core) + exhaustive lattice differential testing against the executable model",
 }
